@@ -19,6 +19,7 @@ import (
 	"bytes"
 	"crypto/sha256"
 	"encoding/binary"
+	"runtime"
 	"sort"
 	"testing"
 
@@ -143,12 +144,15 @@ type c16RefKV struct {
 	V []byte
 }
 
+// c16RefRoot works on kvs sorted ascending by key: inside a sub-trie all keys agree on the
+// first `depth` bits, so the keys whose bit `depth` is 0 form a prefix of the range.
+// (Allocation-free variant of C15's list-splitting reference.)
 func c16RefRoot(kvs []c16RefKV, depth int) [32]byte {
 	if len(kvs) == 0 {
 		return [32]byte{}
 	}
 	if len(kvs) == 1 {
-		node := make([]byte, 64)
+		var node [64]byte
 		k, v := kvs[0].K, kvs[0].V
 		if len(v) <= 32 {
 			node[0] = 0b10000000 | byte(len(v))
@@ -160,22 +164,26 @@ func c16RefRoot(kvs []c16RefKV, depth int) [32]byte {
 			h := blake2b.Sum256(v)
 			copy(node[32:], h[:])
 		}
-		return blake2b.Sum256(node)
+		return blake2b.Sum256(node[:])
 	}
-	var l, r []c16RefKV
-	for _, e := range kvs {
-		if c16RefBit(e.K, depth) == 0 {
-			l = append(l, e)
-		} else {
-			r = append(r, e)
+	split := len(kvs)
+	for i, e := range kvs {
+		if c16RefBit(e.K, depth) == 1 {
+			split = i
+			break
 		}
 	}
-	lh, rh := c16RefRoot(l, depth+1), c16RefRoot(r, depth+1)
-	node := make([]byte, 64)
+	for _, e := range kvs[split:] {
+		if c16RefBit(e.K, depth) != 1 {
+			panic("c16RefRoot: input not sorted")
+		}
+	}
+	lh, rh := c16RefRoot(kvs[:split], depth+1), c16RefRoot(kvs[split:], depth+1)
+	var node [64]byte
 	copy(node[:32], lh[:])
 	node[0] &^= 0x80
 	copy(node[32:], rh[:])
-	return blake2b.Sum256(node)
+	return blake2b.Sum256(node[:])
 }
 
 // ---------------------------------------------------------------------------
@@ -366,6 +374,24 @@ func c16Check(c *kit.Case, in c16Input) {
 	}
 
 	cs := newChainState() // fresh per case: empty cache, nothing shared with an earlier case
+	keyMemo := map[int]types.StateKey{}
+	keyOf := func(id int) types.StateKey {
+		if k, ok := keyMemo[id]; ok {
+			return k
+		}
+		k := c16KeyBytes(&in, id)
+		keyMemo[id] = k
+		return k
+	}
+	valMemo := map[c16Val][]byte{}
+	valOf := func(v c16Val) []byte {
+		if b, ok := valMemo[v]; ok {
+			return b
+		}
+		b := c16ValueBytes(v)
+		valMemo[v] = b
+		return b
+	}
 
 	live := map[int]c16Val{}
 	var removed []int // ids, in removal order (may hold ids that are live again: skipped at use)
@@ -517,7 +543,7 @@ func c16Check(c *kit.Case, in c16Input) {
 				if v.Len > 4096 {
 					return
 				}
-				es[i] = c16Entry{id: id, key: c16KeyBytes(&in, id), val: c16ValueBytes(v)}
+				es[i] = c16Entry{id: id, key: keyOf(id), val: valOf(v)}
 			}
 			pres := c16Present(es, op.Order, op.OSeed)
 			mk := func() types.StateKeyVals {
@@ -529,15 +555,15 @@ func c16Check(c *kit.Case, in c16Input) {
 			}
 			// expected values first (nothing of the cache involved)
 			uncached := m.MerklizationSerializedState(mk())
-			refIn := make([]c16RefKV, len(pres))
-			for i, e := range pres {
-				refIn[i] = c16RefKV{K: e.key[:], V: e.val}
+			asc := c16Present(es, 0, 0)
+			refIn := make([]c16RefKV, len(asc))
+			for i := range asc {
+				refIn[i] = c16RefKV{K: asc[i].key[:], V: asc[i].val}
 			}
 			ref := c16RefRoot(refIn, 0)
 
 			// classification through the model (ascending key order = the order in which the trie
 			// visits leaves, whatever the presentation)
-			asc := c16Present(es, 0, 0)
 			evicted := false
 			for _, e := range asc {
 				cur, cached := model[e.key]
@@ -616,6 +642,7 @@ func TestVerif_C16(t *testing.T) {
 	s := kit.Begin(t, "C16")
 	defer s.Finish()
 	logger.Disable()
+	runtime.MemProfileRate = 0
 	if types.MaxKeyLevelCacheSize != types.EpochLength*50 || types.EpochLength != 12 {
 		s.Note("unexpected parameters: EpochLength=%d MaxKeyLevelCacheSize=%d", types.EpochLength, types.MaxKeyLevelCacheSize)
 	}
